@@ -44,7 +44,9 @@ def finding_for(findings, pid, kind, name=None, key=None, cls=None):
                 return f
             parts = f.get('class_parts')
             if cls and parts and all(p in parts for p in str(cls).split('+')):
-                return f
+                need = f.get('must_include_any')
+                if not need or any(p in need for p in str(cls).split('+')):
+                    return f
             pre = f.get('key_prefixes', [])
             if key is not None and any(key.startswith(x) for x in pre):
                 return f
